@@ -1,9 +1,11 @@
 package main
 
 import (
+	"bytes"
 	"fmt"
 	"math/rand"
 	"os"
+	"os/exec"
 	"runtime"
 	"sort"
 	"time"
@@ -47,7 +49,74 @@ func (a Args) Float(k string, d float64) float64 {
 
 var scenarios = map[string]Scenario{}
 
-func init() { register("ws", runWS) }
+func init() {
+	register("ws", runWS)
+	register("wsp", runWSParent)
+}
+
+// runWSParent runs the scenarios in a child process so that a crash of the code under test (a panic in a library
+// goroutine) does not take the harness down: the scenario that was running gets a ProcessExit event instead.
+func runWSParent(env *Env) error {
+	lines, err := readNDJSON(env.In)
+	if err != nil {
+		return err
+	}
+	self, err := os.Executable()
+	if err != nil {
+		return err
+	}
+	dir, err := os.MkdirTemp("", "wsp-")
+	if err != nil {
+		return err
+	}
+	defer os.RemoveAll(dir)
+	start, crashes := 0, 0
+	for start < len(lines) {
+		out := fmt.Sprintf("%s/child-%d.ndjson", dir, start)
+		args := []string{"ws", "-in", env.In, "-out", out, "-seed", fmt.Sprint(env.Seed), "-tier", env.Tier, "-arg", fmt.Sprintf("start=%d", start)}
+		if env.Args["hooks"] == "1" {
+			args = append(args, "-arg", "hooks=1")
+		}
+		cmd := exec.Command(self, args...)
+		var stderr bytes.Buffer
+		cmd.Stderr, cmd.Stdout = &stderr, &stderr
+		runErr := cmd.Run()
+		done, _ := readNDJSON(out)
+		completed := 0
+		for _, l := range done {
+			if l["ev"] == "scenario-done" {
+				completed++
+				continue
+			}
+			env.W.Emit(l)
+		}
+		start += completed
+		if runErr == nil {
+			if start < len(lines) {
+				return fmt.Errorf("child exited cleanly after %d of %d scenarios", start, len(lines))
+			}
+			break
+		}
+		if ee, ok := runErr.(*exec.ExitError); ok && ee.ExitCode() == 3 {
+			return fmt.Errorf("harness failure in child: %s", tail(stderr.String(), 1500))
+		}
+		if start >= len(lines) {
+			break
+		}
+		crashes++
+		if crashes > 60 {
+			return fmt.Errorf("too many crashes of the code under test; last: %s", tail(stderr.String(), 1500))
+		}
+		// the events of the crashed scenario that made it to disk were emitted above (the child flushes per event group);
+		// close the scenario with ProcessExit
+		name, _ := lines[start]["sc"].(string)
+		env.W.Emit(Ev{"ev": "reset", "sc": start + 1, "name": name, "args": lines[start]["args"], "seed": 0, "hooks": false, "crashed": true})
+		env.W.Emit(Ev{"ev": "ProcessExit", "status": runErr.Error(), "stderr": tail(stderr.String(), 800)})
+		env.W.Emit(Ev{"ev": "Quiesce", "cli": "", "probe": "none", "waiting": []int{}, "lost": []int{}})
+		start++
+	}
+	return nil
+}
 
 func runWS(env *Env) error {
 	lines, err := readNDJSON(env.In)
@@ -55,7 +124,12 @@ func runWS(env *Env) error {
 		return err
 	}
 	hooks := env.Args["hooks"] == "1"
+	startAt := 0
+	fmt.Sscan(env.Args["start"], &startAt)
 	for i, ln := range lines {
+		if i < startAt {
+			continue
+		}
 		name := ln["sc"].(string)
 		sc, ok := scenarios[name]
 		if !ok {
@@ -99,6 +173,8 @@ func runWS(env *Env) error {
 			// a scenario that could not be driven is a harness failure, never a verdict
 			return fmt.Errorf("scenario %d %s: %w", i+1, name, serr)
 		}
+		env.W.Emit(Ev{"ev": "scenario-done", "sc": i + 1})
+		env.W.Flush()
 	}
 	return nil
 }
